@@ -2,6 +2,7 @@
 from __future__ import annotations
 
 import itertools
+import copy
 import os
 import shutil
 from pathlib import Path
@@ -204,6 +205,61 @@ PLACEMENTS = {
 }
 
 
+COMP_NAMES = ["a", "b", "case 1", "x.y", "q'r", "back\\slash", "d-e", "A", "..x", "tab\tname", "$v", "semi;colon"]
+
+
+def sd_include_cases(ctx, rng):
+    """SDict.include against the model's `Paths.sd_include`: same state (data, the four tables) and same counter after the
+    call, for in-memory dicts with arbitrary content: INCLUDE placeholder keys that occupy the next ids (the loop that
+    draws another id), rows already in the include table, the counter next to its wrap, names that need quoting."""
+    import dictIO
+    from harness.props import c07
+
+    lines, exps, cases = [], [], []
+    for i in range(ctx.n(150, 1500)):
+        base = ["/"] + [rng.choice(COMP_NAMES) for _ in range(rng.randrange(0, 3))]
+        ca = base + [rng.choice(COMP_NAMES) for _ in range(rng.randrange(0, 3))] + ["fileA"]
+        cb = (base if rng.random() < 0.7 else ["/"]) + [rng.choice(COMP_NAMES) for _ in range(rng.randrange(0, 3))] + [rng.choice(["fileB", "b.dict", "p q", "o'k", "w\\x"])]
+        if ca == cb:
+            continue
+        c0 = rng.choice([-1, 0, 3, 41, 999996, 999997, 999998, 999999])
+        nxt = [(c0 + k) % 1000000 for k in range(1, 6)]
+        data = {"own": 1, "sub": {"x": 2}}
+        for k in range(rng.choice([0, 0, 1, 2, 3])):        # the next ids are taken
+            data[f"INCLUDE{nxt[k]:06d}"] = f"INCLUDE{nxt[k]:06d}"
+        if rng.random() < 0.3:
+            data[f"INCLUDE{nxt[4]:06d}"] = 5
+        if rng.random() < 0.3:
+            data = dict(reversed(list(data.items())))
+        inc = {}
+        for k in rng.sample(range(5), rng.randrange(0, 3)):
+            inc[nxt[k]] = ("#include old%d" % k, "old%d" % k, "/work/old%d" % k)
+        case = {"kind": "sd-include", "ca": ca, "cb": cb, "count": c0, "data": data, "inc": inc}
+        pa, pb = Path(*ca), Path(*cb)
+        try:
+            sa = dictIO.SDict(pa)
+            sa.update(copy.deepcopy(data))
+            sa.includes = {i_: (v[0], v[1], Path(v[2])) for i_, v in inc.items()}
+            sb = dictIO.SDict(pb)
+            before = c07.enc_sdict_obj(sa)
+            native.set_counter(c0)
+            sa.include(sb)
+            got = f"ok {c07.enc_sdict_obj(sa)} i{native.counter_value()}"
+        except Exception as e:  # noqa: BLE001
+            got = "raise " + type(e).__name__
+        lines.append(f"sd_include {before} i{c0} {wire.enc_list(list(pa.parent.parts), wire.enc_str)} "
+                     f"{wire.enc_list(list(pb.parts), wire.enc_str)} {wire.enc_str(str(pb))}")
+        exps.append(got)
+        cases.append(case)
+        ctx.count(("sdi", tuple(ca), tuple(cb), c0, repr(data), repr(inc)), True, "sd-include",
+                  sample=case if ctx.classes.get("sd-include", 0) < 2 else None)
+    outs = wire.run_model(lines)
+    for case, ml, got in zip(cases, outs, exps):
+        ctx.corr_compared += 1
+        if ml != got and len(ctx.disagreements) < 20:
+            ctx.disagree("SDict.include", case, ml, got)
+
+
 def run(ctx):
     rng = ctx.rng
     from dictIO.utils.path import relative_path
@@ -328,5 +384,6 @@ def run(ctx):
         if r:
             ctx.oracle_fail(c, r[0], r[1])
         ctx.count(("i", a, b, c.get("a_in_memory")), da != db, "include:random")
+    sd_include_cases(ctx, rng)
     if ctx.classes["rel"] == 0 or ctx.classes["hcr"] == 0:
         raise RuntimeError("generator starved")
